@@ -331,3 +331,43 @@ class OnTimerEvent:
         local = sms.instance_state_modes[self.supvisors.mapper.local_identifier]
         return [whole('F:_state:'), contents(local.instance_states), field(local, 'master_identifier'),
                 field(sms, 'update_mark'), contents(sms.instance_state_modes)]
+
+
+# ------------------------------------------------------------------------------------------ XML-RPC failure notification
+@contract('internal_com.supervisorproxy:SupervisorProxyServer.push_notification', props=[])
+class PushNotification:
+    """ASSUMED (transport): queues the notification for the proxy of the local Supervisor, which forwards it to the main
+    thread (listener.read_notification -> fsm.on_instance_failure -> Context.on_instance_failure)"""
+    assumed = True
+    raises = ()
+    effect = 'push_notification'
+
+    def modifies(self, message):
+        return []
+
+
+@contract('internal_com.supervisorproxy:SupervisorProxyThread.handle_exception', props=['C07'])
+class HandleException:
+    """statement: 'A peer that falls silent is declared FAILED ... (at once if an XML-RPC to it fails)': when an XML-RPC
+    to a peer fails, the failure is notified for a peer in ANY active state (CHECKING, CHECKED, RUNNING - and FAILED),
+    not only for a RUNNING one; nothing is notified for the local instance nor for a peer that is not active yet.
+    The proxy runs in its own thread: the body is verified as SEQUENTIAL code (the status it reads belongs to the main
+    thread; the interleaving is not modelled)."""
+    raises = ()
+
+    def modifies(self):
+        return []
+
+    def pre_known(self):
+        """the proxy of a peer is created by SupervisorProxyServer.get_proxy from a status of the context"""
+        return self.status.supvisors_id.identifier in self.supvisors.mapper._instances
+
+    def post_effect_notified_iff_active_peer(self):
+        peer = self.status.supvisors_id.identifier != self.supvisors.mapper.local_identifier
+        return count_effects('push_notification') == (1 if peer and self.status._state in ACTIVE else 0)
+
+    def post_effect_failure_of_that_peer(self):
+        ident = self.supvisors.mapper._instances[self.status.supvisors_id.identifier]
+        return (effect_at('push_notification', 0)[0][1][0] == NotificationHeaders.INSTANCE_FAILURE.value
+                and effect_at('push_notification', 0)[0][0][0] == ident.identifier
+                if count_effects('push_notification') == 1 else True)
